@@ -177,6 +177,14 @@ def one(rng, root, env, toks, nodes, text, desc):
             oracle = (f"findall={[toks.tok(n) for n in found]} but match() holds for {[toks.tok(n) for n in want]}")
         elif (first is None) != (not found) or (found and first is not found[0]):
             oracle = "find() is not the first node of findall()"
+        else:
+            # the node.find / node.findall front-ends, given the TEXT (they compile it themselves)
+            f2 = list(root.findall(text))
+            g2 = root.find(text)
+            if len(f2) != len(found) or any(a is not b for a, b in zip(f2, found)):
+                oracle = "root.findall(text) differs from ASTXpath(text).findall(root)"
+            elif g2 is not first:
+                oracle = "root.find(text) differs from the first node of findall"
     except Exception as e:  # noqa
         real = dumps([A("raise"), A(type(e).__name__)])
     global N_FOUND
